@@ -179,7 +179,19 @@ func VH_c02_statet_sequence_traverse_concat() {
 		return r
 	}
 	want := func() int { return sum([]int{a.v, b.v, c.v}) }
-	switch zz.Choice("which", 5) {
+	switch zz.Choice("which", 6) {
+	case 5:
+		// the operands of Concat are the programs passed at the call, also when they are passed as a spread
+		// slice the caller goes on to reuse (a scratch buffer of steps): what the caller stores in the slice
+		// afterwards is no operand of p
+		tail := []fp.StateT[int, int]{b.prog(), c.prog()}
+		p := Concat(a.prog(), tail...)
+		poison := vhStep{9, false, 0, vhErr("poison")}
+		if zz.Bool("overwrite.all") {
+			tail[0] = poison.prog()
+		}
+		tail[1] = poison.prog()
+		vhCheckOrder(p, func() int { return c.v }, "Concat(start, steps...) after the caller reused steps", nil, a, b, c)
 	case 0:
 		p := Map(Sequence([]fp.StateT[int, int]{a.prog(), b.prog(), c.prog()}), sum)
 		vhCheckOrder(p, want, "Sequence", nil, a, b, c)
